@@ -277,6 +277,7 @@ def run(ctx):
     ctx.attempt(_embedding_dimension_rule, ctx, "R10.11")
     ctx.attempt(stored_frame_rule, ctx)
     ctx.attempt(fibre_derivative_rule, ctx)
+    ctx.attempt(bar_direction_rule, ctx)
     from .. import beamops as _beamops
     from ..elems import ElemLib as _ElemLib
 
@@ -518,3 +519,48 @@ def active_stress_direction_rule(ctx, rid="R10.15"):
             r.fail(f.qualname, "kelvin", f.file, f.lineno, f.name, f"{label}: component {k} is {g!r}, the Kelvin-Mandel vector of tau T T^T has {scale * want[k]!r}: the active stress is not the tensor tau T x T in the notation the operators use (its shear part does not follow a rotation of the fibre)")
         else:
             r.ok(f"{label} == Kelvin-Mandel vector of {'tau ' if f is fC else ''}T T^T")
+
+
+def bar_direction_rule(ctx, rid="R10.16"):
+    """'a beam ... gives the same response ... whatever its inclination': a 1-D structure (axial dof only) has no member
+    frame - its unknown is the displacement along the global x axis - so the strain its operator reports is du_x/dx whichever
+    way the line was drawn.  `Get_beam_B_e_pg` of the beam element classes is interpreted for a structure of dimension 1 on
+    a real SEG2 element lying on the x axis, drawn towards +x and towards -x: B applied to the nodal values of
+    u_x = a + b x must be b (the axial force N = EA du/dx then has the sign of the stretching in both cases)."""
+    from ..elems import ElemLib
+    from ..femchain import Chain
+
+    repo = ctx.repo
+    r = ctx.rule(rid, "1-D beam structure: the axial strain operator applied to u_x = a + b x returns b for a line drawn towards +x and towards -x (Euler-Bernoulli and Timoshenko)", min_instances=4)
+    lib = ElemLib(repo)
+    a_, b_ = Poly.var("a"), Poly.var("b")
+    for cname in ("EULER_BERNOULLI2", "TIMOSHENKO2"):
+        ci = repo.cls("EasyFEA.FEM.Elems._beam." + cname)
+        f = repo.lookup_method(ci, "Get_beam_B_e_pg")
+        for label, ends in (("towards +x", [Q(1), Q(4)]), ("towards -x", [Q(4), Q(1)])):
+            r.instance(fn=f.qualname)
+            ch = Chain(lib, "SEG2", symbolic_vertices=False, fe=True)
+            ch.obj.cls = ci
+            at = ch.obj.attrs
+            at["inDim"] = 1
+            at["coord"] = XArray.from_nested([[x, Q(0), Q(0)] for x in ends])
+            ch.I.call_hook = fe_hook_full
+            bs = SimpleNamespace(dim=1, dof_n=1, beams=[])
+            try:
+                B = XArray.from_nested(ch.I.call_function(f, [bs], self_obj=ch.obj))
+            except XRaise as e:
+                r.fail(f.qualname, f"bar:{cname}:{label}", f.file, f.lineno, f"{cname}.Get_beam_B_e_pg", f"{label}: raises {e}")
+                continue
+            u = [a_ + b_ * x for x in ends]
+            bad = None
+            if B.shape[-2:] != (1, 2):
+                bad = f"B has shape {B.shape}"
+            else:
+                for p in range(B.shape[1]):
+                    strain = sum((Poly.of(B[0, p, 0, n]) * u[n] for n in range(2)), Poly())
+                    if bad is None and not is_zero(strain - b_):
+                        bad = f"B u = {strain!r} at integration point {p}, expected du_x/dx = b"
+            if bad:
+                r.fail(f.qualname, f"bar:{cname}:{label}", f.file, f.lineno, f"{cname}.Get_beam_B_e_pg", f"1-D structure, line drawn {label}: {bad}: the axial strain (and N = EA du/dx) has the sign of the drawing direction - a bar in tension is reported in compression")
+            else:
+                r.ok(f"{cname}, {label}: B u == du/dx")
